@@ -585,8 +585,19 @@ impl<'a> World<'a> {
         // KF-1 provenance: entries copied verbatim from a tainted entry of the peer stay tainted.
         if let Some(ns) = node.chitchat.node_state(&member) {
             for (k, v) in peer_taints {
-                if ns.get_versioned(&k).map(|vv| vv.version == v).unwrap_or(false) {
-                    self.taints.insert((n, wid.clone(), k, v));
+                match ns.get_versioned(&k).map(|vv| vv.version) {
+                    Some(w) if w == v => {
+                        self.taints.insert((n, wid.clone(), k, v));
+                    }
+                    // The catch-up keeps the node's own, newer entry of a key only because the
+                    // supplied state still lists that key - which it does solely through the
+                    // KF-1 entry (an exact copy at that watermark has no such key any more, and
+                    // the replacement would have removed it). Same root cause: the kept entry at
+                    // or below the adopted watermark inherits the taint.
+                    Some(w) if w > v && w <= ns.last_gc_version() => {
+                        self.taints.insert((n, wid.clone(), k, w));
+                    }
+                    _ => {}
                 }
             }
         }
@@ -1735,6 +1746,18 @@ impl<'a> World<'a> {
         out
     }
 
+    /// Debug aid (VERIF_TRACE): every running node's copies and the current taints.
+    fn trace_state(&self) {
+        for s in self.running() {
+            let node = self.nodes[s].as_ref().unwrap();
+            for (id, ns) in node.chitchat.node_states() {
+                let entries: Vec<String> = ns.key_values_including_deleted().map(|(k, vv)| format!("{k:?}@{}s{}", vv.version, status_code(&vv.status))).collect();
+                eprintln!("    n{s}: {}:{} gc {} max {} hb {} [{}]", id.node_id, id.generation_id, ns.last_gc_version(), ns.max_version(), u64::from(ns.heartbeat()), entries.join(" "));
+            }
+        }
+        eprintln!("    inflight {} taints {:?}", self.inflight.len(), self.taints.iter().map(|(s, w, k, v)| format!("n{s}:{}:{k:?}@{v}", w.node_id)).collect::<Vec<_>>());
+    }
+
     fn lagging_detail(&self) -> String {
         let mut out = Vec::new();
         for s in self.running() {
@@ -1888,8 +1911,14 @@ pub fn exec_sim(case: &SimCase, mon: Monitor, tally: &mut Tally) -> Result<(), F
     with_paused_runtime(async {
         let mut world = World::new(&case.cfg, mon);
         let r: S<()> = async {
-            for op in &case.ops {
-                world.apply(op).await?;
+            let trace = std::env::var_os("VERIF_TRACE").is_some();
+            for (i, op) in case.ops.iter().enumerate() {
+                let r = world.apply(op).await;
+                if trace {
+                    eprintln!("--- step {i} {op:?} -> {}", if r.is_ok() { "ok" } else { "ERR" });
+                    world.trace_state();
+                }
+                r?;
             }
             if let Some(fair) = &case.fair {
                 world.fair_phase(fair, tally).await?;
